@@ -229,7 +229,11 @@ pub fn run(ctx: &mut Ctx) -> Report {
     );
     if let Some(r) = ctx.replay.clone() {
         let c = &r["case"];
-        let case = gen_case(c["seed"].as_u64().unwrap_or(1), c["index"].as_u64().unwrap_or(0), c["big"].as_bool().unwrap_or(false));
+        let (sd, ix) = (c["seed"].as_u64().unwrap_or(1), c["index"].as_u64().unwrap_or(0));
+        let case = match c["variant"].as_str() {
+            Some(v) if !v.is_empty() => crate::props::c02::gen_variant(sd, ix, v),
+            _ => gen_case(sd, ix, c["big"].as_bool().unwrap_or(false)),
+        };
         let mut m = ctx.spawn_model();
         run_case(&ctx.workdir, ctx.seed, &mut m, &mut rep, &case, "replay");
         return rep;
@@ -238,7 +242,9 @@ pub fn run(ctx: &mut Ctx) -> Report {
     let (seed, workdir) = (ctx.seed, ctx.workdir.clone());
     crate::props::par_cases(ctx, &mut rep, n, 6, |m, r, i| {
         let big = i % 20 == 7;
-        let case = gen_case(seed, i, big);
+        // one case in 20: many similar samples with small segments (LZ groups with > 50 distinct
+        // deltas, i.e. several packs per delta stream, read back through ONE reader handle)
+        let case = if i % 20 == 13 { crate::props::c02::gen_variant(seed, i, "many-samples") } else { gen_case(seed, i, big) };
         run_case(&workdir, seed, m, r, &case, &format!("{i}"));
     });
     rep
